@@ -124,6 +124,7 @@ def step (st : St) (args : List String) : St × String × String :=
       let r := windowDelete s (decPath pA) vA.toNat! (decPath q)
       both r.1 r.2
   | "cdel" :: _ => (st, "mon=ok", "mon=ok")   -- conditional delete vs an update through a retained handle: Go-side monitor
+  | ["pwd", _] => (st, "ok", "ok")            -- a conditional delete whose condition panics on the first value: nothing deleted
   | "qvd" :: _ => (st, "mon=ok", "mon=ok")    -- literal-path Query vs Delete of that leaf: Go-side monitor (cc_qvd.go)
   | "avd" :: _ => (st, "mon=ok", "mon=ok")    -- Add over an existing leaf vs conditional delete: Go-side monitor
   | "stress" :: _ => (st, "ok", "ok")
